@@ -396,6 +396,51 @@ func (d *driver) runPurityProgram(w emitter, pid int, line []byte) {
 					multiproof.CreateMultiProof(common.NewTranscript("purity-fail"), cfg, nil, nil, nil)
 					ipa.CreateIPAProof(common.NewTranscript("pf"), cfg, cm, f[:100], frFromBig(big.NewInt(3)))
 				}()
+				// a prover call rejected because of ONE bad commitment (Z = 0: cannot be normalised) listed after good, not yet normalised
+				// ones: the good commitments are caller-supplied inputs and must still stand for the same elements afterwards
+				func() {
+					defer func() { recover() }()
+					g1 := cfg.Commit(polyClass("random", o.A+1, rnd))
+					g2 := cm
+					// (proof creation may re-normalise its commitments - C13 permits that - so the comparison is on the affine point each
+					// representation stands for, computed with math/big: the same point or its class twin (-x, -y), and a non-zero Z)
+					aff := func(e *banderwagon.Element) (ax, ay *big.Int, ok bool) {
+						x, y, z := banderwagon.VerifCoords(e)
+						zb := fpRegBig(&z)
+						if zb.Sign() == 0 {
+							return nil, nil, false
+						}
+						zi := new(big.Int).ModInverse(zb, modP)
+						ax = new(big.Int).Mul(fpRegBig(&x), zi)
+						ay = new(big.Int).Mul(fpRegBig(&y), zi)
+						return ax.Mod(ax, modP), ay.Mod(ay, modP), true
+					}
+					same := func(ax, ay, bx, by *big.Int) bool {
+						if ax.Cmp(bx) == 0 && ay.Cmp(by) == 0 {
+							return true
+						}
+						nx, ny := new(big.Int).Sub(modP, bx), new(big.Int).Sub(modP, by)
+						return ax.Cmp(nx.Mod(nx, modP)) == 0 && ay.Cmp(ny.Mod(ny, modP)) == 0
+					}
+					x1, y1, _ := aff(&g1)
+					x2, y2, _ := aff(&g2)
+					bx, by, _ := banderwagon.VerifCoords(&cfg.SRS[5])
+					badEl := banderwagon.VerifFromCoords(bx, by, fp.Zero())
+					lists := [][]*banderwagon.Element{{&g1, &g2, &badEl}, {&g1, &badEl, &g2}, {&g1, &g1, &badEl, &g2}}
+					cs := lists[o.A%3]
+					fsx := make([][]fr.Element, len(cs))
+					zsx := make([]uint8, len(cs))
+					for j := range cs {
+						fsx[j] = f
+						zsx[j] = uint8(j)
+					}
+					_, perr := multiproof.CreateMultiProof(common.NewTranscript("purity-fail"), cfg, cs, fsx, zsx)
+					a1, b1, ok1 := aff(&g1)
+					a2, b2, ok2 := aff(&g2)
+					if perr != nil && !(ok1 && ok2 && same(a1, b1, x1, y1) && same(a2, b2, x2, y2)) {
+						unchanged = false
+					}
+				}()
 				// the honest statement right after the failing calls
 				{
 					y, y2 := f[z], f[z]
